@@ -2,6 +2,7 @@
    Model of a restart: the stored group state survives; the snapshot manager is rebuilt from the stored snapshot names and
    has lost the commit timestamps (Engine.restart). *)
 From MDK Require Import Base.Prelude Base.AMap Mdk.Engine Mdk.EngineSpec Mdk.EngineProofs Mdk.EngineProofs2.
+From MDK Require Store.Contract Store.ContractProofs.
 
 Theorem C11_restart_observably_invisible : forall c, proj (restart c) = proj c.
 Proof. exact restart_proj. Qed.
@@ -26,3 +27,12 @@ Theorem C11_race_after_restart_refuted : exists c worse better,
   k_cur (kc (fst (deliver (restart (fst (deliver c worse))) better))) = e_id worse + 1.
 Proof. exact race_after_restart_refuted. Qed.
 Print Assumptions C11_race_after_restart_refuted.
+
+(* storage layer: the specification of closing and reopening the database file is the identity on the abstract store, so a
+   run with reopens injected at any subset of positions gives the same results and the same final store as the run without.
+   (The content of this statement is the specification; that the SQLite backend meets it is what the correspondence check
+   establishes: `ST Reopen` at random positions of every storage operation sequence.) *)
+Theorem C11_storage_reopens_invisible : forall ops s,
+  Store.ContractProofs.run_with_reopens ops s = Store.ContractProofs.run_plain (map snd ops) s.
+Proof. exact Store.ContractProofs.reopens_invisible. Qed.
+Print Assumptions C11_storage_reopens_invisible.
